@@ -209,6 +209,88 @@ func c14units(tier string) []mc.Unit {
 		r.AddTransitions(3)
 		r.AddNontrivial(3)
 	}})
+	// the format's own keywords and sigils inside values: every token of the dictionary alone, as prefix, as suffix and
+	// in the middle of an attribute value, of the source and of the type column, through Build and the independent writer
+	us = append(us, mc.Unit{Name: "format-tokens", Weight: 30, Run: func(r *mc.Recorder) {
+		var cnt int64
+		n := 90
+		tokens := []string{"##FASTA", "##gff-version 3", "##sequence-region chr1 1 9", "###", "##", "#", ">", ">chr1", "FASTA", "gff-version", "\\", "\"", "'", "%", "%3B", "&", ",", "|", "..", "  ", "(", ")", "[", "]", "{", "}", "<", "?", "*", "+", "-", ".", "@", "~", "^", "$", "!", "`", "/", "//", ":", "\u00e9", "\u4e2d"}
+		for _, tok := range tokens {
+			for place := 0; place < 4; place++ {
+				v := []string{tok, tok + " tail", "head " + tok, "head " + tok + " tail"}[place]
+				for col := 0; col < 3; col++ {
+					f := c14feat{seqid: "chr1", source: "src", typ: "gene", start: 2, end: 40, score: ".", strand: "+", phase: ".", attrs: map[string]string{"ID": "g1", "Note": "plain"}}
+					f2 := c14feat{seqid: "chr1", source: "src2", typ: "CDS", start: 41, end: 80, score: "0.5", strand: "-", phase: "0", attrs: map[string]string{"ID": "g2"}}
+					switch col {
+					case 0:
+						f.attrs["Note"] = v
+					case 1:
+						if strings.ContainsAny(v, " ") || strings.HasPrefix(v, "#") || strings.HasPrefix(v, ">") {
+							v = "s" + strings.ReplaceAll(v, " ", "_")
+						}
+						f.source = v
+					case 2:
+						if strings.ContainsAny(v, " ") || strings.HasPrefix(v, "#") || strings.HasPrefix(v, ">") {
+							v = "t" + strings.ReplaceAll(v, " ", "_")
+						}
+						f.typ = v
+					}
+					rec := c14rec{name: "chr1", rstart: 1, rend: n, seq: c14seq(n), feats: []c14feat{f, f2}}
+					for w := 0; w < 2; w++ {
+						var text []byte
+						cas := fmt.Sprintf("token %q as %s in %s, writer %s", tok, []string{"whole value", "prefix", "suffix", "infix"}[place], []string{"an attribute value", "the source column", "the type column"}[col], []string{"Build", "independent"}[w])
+						if w == 0 {
+							if p := catch(func() { text = gff.Build(c14poly(rec)) }); p != "" {
+								r.Failf("no-panic", cas, []string{"token"}, "text", "panic: "+p)
+								continue
+							}
+						} else {
+							text = c14write(rec, 70, true, false)
+						}
+						var got poly.Sequence
+						cnt++
+						if p := catch(func() { got = gff.Parse(text) }); p != "" {
+							r.Failf(map[int]string{0: "write-read-no-panic", 1: "parse-no-panic"}[w], cas, []string{"token"}, "a record", "panic: "+p)
+							continue
+						}
+						c14check(r, cas, []string{"token"}, rec, got)
+					}
+				}
+			}
+		}
+		r.Eval(cnt)
+		r.AddStates(cnt)
+		r.AddTransitions(cnt)
+		r.AddNontrivial(cnt)
+		r.Bound("format-tokens", fmt.Sprintf("%d tokens (the format's directives and sigils, punctuation, non-ASCII) x 4 placements x 3 columns x 2 writers", len(tokens)))
+	}})
+	// file wrappers in every scratch directory (distinct file systems)
+	us = append(us, mc.Unit{Name: "files/everywhere", Weight: 10, Run: func(r *mc.Recorder) {
+		var cnt int64
+		n := 200
+		rec := c14rec{name: "chr1", rstart: 1, rend: n, seq: c14seq(n)}
+		rec.feats = []c14feat{{seqid: "chr1", source: "src", typ: "gene", start: 3, end: 150, score: ".", strand: "-", phase: ".", attrs: map[string]string{"ID": "x", "Note": "two words"}}}
+		for _, root := range scratchRoots() {
+			dir, err := os.MkdirTemp(root, "verif-scratch-c14-")
+			if err != nil {
+				continue
+			}
+			path := filepath.Join(dir, "t.gff")
+			var got poly.Sequence
+			cnt++
+			if p := catch(func() { gff.Write(c14poly(rec), path); got = gff.Read(path) }); p != "" {
+				r.Failf("write-read-no-panic", "Write/Read via a file under "+root, []string{"files"}, "a record", p)
+			} else {
+				c14check(r, "Write/Read via a file under "+root, []string{"files"}, rec, got)
+			}
+			os.RemoveAll(dir)
+		}
+		r.Eval(cnt)
+		r.AddStates(cnt)
+		r.AddTransitions(cnt)
+		r.AddNontrivial(cnt)
+		r.Bound("files", fmt.Sprintf("Write/Read under each of %v", scratchRoots()))
+	}})
 	return us
 }
 
